@@ -203,6 +203,11 @@ where
         v.diagonal_regularizer = crate::verif::f64_of(self.diagonal_regularizer);
         Some(v)
     }
+
+    #[cfg(clarabel_verif)]
+    fn verif_last_solve(&self) -> Option<(Vec<f64>, Vec<f64>)> {
+        Some((crate::verif::vec_of(&self.x), crate::verif::vec_of(&self.b)))
+    }
 }
 
 impl<T> DirectLDLKKTSolver<T>
@@ -287,13 +292,33 @@ where
         //compute the initial error
         let mut norme = _get_refine_error(e, b, K, x);
 
+        #[cfg(clarabel_verif)]
+        let vlog = crate::verif::refine_log();
+        #[cfg(clarabel_verif)]
+        if vlog {
+            use crate::verif::f64_of;
+            crate::verif::emit_simple(
+                "RefineStart",
+                &[maxiter as i64],
+                &[f64_of(normb), f64_of(norme), f64_of(abstol), f64_of(reltol), f64_of(stopratio)],
+            );
+        }
+
         if !norme.is_finite() {
+            #[cfg(clarabel_verif)]
+            if vlog {
+                crate::verif::emit_simple("RefineEnd", &[0], &[]);
+            }
             return false;
         }
 
         for _ in 0..maxiter {
             if norme <= (abstol + reltol * normb) {
                 //within tolerance.  Exit
+                #[cfg(clarabel_verif)]
+                if vlog {
+                    crate::verif::emit_simple("RefineConverged", &[], &[]);
+                }
                 break;
             }
 
@@ -309,6 +334,12 @@ where
             norme = _get_refine_error(e, b, K, dx);
 
             if !norme.is_finite() {
+                #[cfg(clarabel_verif)]
+                if vlog {
+                    use crate::verif::f64_of;
+                    crate::verif::emit_simple("RefineIter", &[0, 0], &[f64_of(lastnorme), f64_of(norme), f64::NAN]);
+                    crate::verif::emit_simple("RefineEnd", &[0], &[]);
+                }
                 return false;
             }
 
@@ -318,9 +349,31 @@ where
                 if improved_ratio > T::one() {
                     std::mem::swap(x, dx);
                 }
+                #[cfg(clarabel_verif)]
+                if vlog {
+                    use crate::verif::f64_of;
+                    crate::verif::emit_simple(
+                        "RefineIter",
+                        &[(improved_ratio > T::one()) as i64, 1],
+                        &[f64_of(lastnorme), f64_of(norme), f64_of(improved_ratio)],
+                    );
+                }
                 break;
             }
             std::mem::swap(x, dx);
+            #[cfg(clarabel_verif)]
+            if vlog {
+                use crate::verif::f64_of;
+                crate::verif::emit_simple(
+                    "RefineIter",
+                    &[1, 0],
+                    &[f64_of(lastnorme), f64_of(norme), f64_of(improved_ratio)],
+                );
+            }
+        }
+        #[cfg(clarabel_verif)]
+        if vlog {
+            crate::verif::emit_simple("RefineEnd", &[1], &[]);
         }
         //NB: "success" means only that we had a finite valued result
         true
